@@ -130,7 +130,12 @@ def obligation(o, tier, seed):
                 "query count=9223372036854775808 search_k=none vec=0.0,0.0 expect_len=5\n"
                 "=== unset budget equals the explicit one\ndim 2\n" +
                 "".join(f"add {i} {float(i)},{float(i % 3)}\n" for i in range(64)) +
-                "build n_trees=2 split_after=2 seed=0\nbudget_equiv count=1 oversampling=64 queries=16\n")
+                "build n_trees=2 split_after=2 seed=0\nbudget_equiv count=1 oversampling=64 queries=16\n"
+                "=== an explicit budget is used as given (a huge one is exhaustive)\ndim 2\n" +
+                "".join(f"add {i} {float(i % 8)},{float(i // 8)}\n" for i in range(64)) +
+                "build n_trees=3 split_after=2 seed=0\n"
+                "query count=40 search_k=18446744073709551615 vec=3.3,4.1 check=exact\n"
+                "query count=64 search_k=18446744073709551615 vec=0.2,0.1 check=exact\n")
         nat = native.run_scenario(scen, profile=profile)
         rp = e2.save_replay(o["props"][0], oid, {"property": o["props"][0], "obligation": oid, "engine": "mirsym",
                                                  "statement": o["what"], "counterexample": v, "scenario": scen,
